@@ -770,4 +770,6 @@ def run(ctx):
               lambda g: g.file.startswith(MODULES + '/terminal/') or g.file.startswith(MODULES + '/util/'), 'terminal input path')
     from tbxlint import progress
     ctx.guard(progress.run_files, ctx, prog, 'C13.R20', ['terminal/impl/terminal.cpp', 'terminal/impl/terminal_key_events.cpp', 'terminal/impl/terminal_commands.cpp', 'terminal/impl/key_event_scanner.cpp', 'terminal/impl/terminal_nodes.cpp', 'terminal/impl/service/telnetd.cpp', 'terminal/impl/service/tcp_rpc.cpp', 'util/split_cmdline.cpp', 'util/string.cpp'], 'terminal input path', floor=1)
+    from rules import C13_history
+    ctx.guard(C13_history.r21, ctx, prog)
     return prog
